@@ -525,6 +525,7 @@ type FuncSpec struct {
 	Line     string
 	LockMode string // "", "none", "R", "W", "any"
 	Pure     bool
+	AllowRead []string // fields that may be read without the lock in this function (listed as assumption)
 }
 
 type PureSpec struct {
@@ -581,7 +582,7 @@ var clauseKeywords = map[string]bool{
 	"func": true, "requires": true, "ensures": true, "modifies": true, "loop": true,
 	"pure": true, "property": true, "ghost": true, "lemma": true, "lockmode": true,
 	"at": true, "trusted": true, "safety": true, "end": true, "lpre": true, "lpost": true,
-	"monitor": true, "lockdomain": true, "immutable": true, "unguarded": true, "guardedmap": true, "guardedmem": true,
+	"allowread": true, "monitor": true, "lockdomain": true, "immutable": true, "unguarded": true, "guardedmap": true, "guardedmem": true,
 }
 
 // LoadContracts reads every *_contracts_verif.go below root. modPath is the Go module path.
@@ -661,10 +662,18 @@ func (c *Contracts) parseFile(path, pkg string) error {
 			name := strings.TrimSpace(rest)
 			cur = &FuncSpec{Name: name, Pkg: pkg, Loops: map[int]*LoopSpec{}, Line: where}
 			curLemma = nil
-			if _, dup := c.Funcs[pkgKey(pkg, name)]; dup {
+			key := pkgKey(pkg, name)
+			if strings.HasPrefix(name, "interface ") {
+				// contract of an interface method: func interface (pkgpath.Iface).Method  — always assumed (there is no body)
+				name = strings.TrimSpace(strings.TrimPrefix(name, "interface "))
+				cur.Name = name
+				key = "iface::" + name
+				c.Trusted = append(c.Trusted, where+": assumed contract of interface method "+name)
+			}
+			if _, dup := c.Funcs[key]; dup {
 				return fmt.Errorf("%s: duplicate contract for %s", where, name)
 			}
-			c.Funcs[pkgKey(pkg, name)] = cur
+			c.Funcs[key] = cur
 		case "end":
 			cur = nil
 			curLemma = nil
@@ -716,6 +725,14 @@ func (c *Contracts) parseFile(path, pkg string) error {
 			if cur != nil {
 				cur.Safety = true
 			}
+		case "allowread":
+			if cur == nil {
+				return fmt.Errorf("%s: allowread outside func", where)
+			}
+			// allowread Type.field <justification>
+			f, just := splitFirst(rest)
+			cur.AllowRead = append(cur.AllowRead, f)
+			c.Trusted = append(c.Trusted, where+": unguarded read of "+f+" in "+cur.Name+": "+just)
 		case "lockmode":
 			if cur == nil {
 				return fmt.Errorf("%s: lockmode outside func", where)
